@@ -7,7 +7,7 @@
     Rust f64 code bit for bit); `exp` is not an IEEE operation available in Coq, so every model
     function that needs it takes the value of `exp` as an input (checked separately against a
     verified enclosure, see Corr.v).  The L-BFGS solver itself is not modelled: its result is
-    judged by the verified stationarity checkers of Corr.v / Proofs.v (pattern B). *)
+    judged by the stationarity checkers of Checker.v, proved sound in Proofs.v (pattern B). *)
 From Coq Require Import List NArith ZArith QArith Qreals Bool Reals.
 From Coq Require String.
 From LinfaVerif Require Import Common.Num Common.NdSum Common.QF.
